@@ -213,6 +213,7 @@ func modelStr(m map[string]uint64) string {
 // Agg is the union of job results.
 type Agg struct {
 	JobResult
+	AbortedJobs int
 	Jobs     int
 	SubJobs  int
 	Families map[string]bool
@@ -231,6 +232,9 @@ func aggregate(results []*JobResult) *Agg {
 			a.SubJobs++
 		}
 		a.Families[r.Job.Family] = true
+		if r.Aborted {
+			a.AbortedJobs++
+		}
 		a.Paths += r.Paths
 		a.Pruned += r.Pruned
 		for k, v := range r.Outcomes {
@@ -347,6 +351,7 @@ func cmdRun(args []string) int {
 	loadS := time.Since(t0).Seconds()
 	cfg := &RunConfig{Tier: *tier, Seed: *seed, Workers: *workers, Verbose: *verbose}
 	if *tier == "thorough" {
+		cfg.StopAfter = 40 * time.Minute
 		cfg.TLimitMs = 60000
 		cfg.XEvery = 1
 		cfg.ValidateCap = 1 << 30
@@ -354,6 +359,7 @@ func cmdRun(args []string) int {
 		cfg.TLimitMs = 30000
 		cfg.XEvery = 10
 		cfg.ValidateCap = 40
+		cfg.StopAfter = 4 * time.Minute
 	}
 	jobs := jobsFor(*prop, *tier)
 	if len(jobs) == 0 {
@@ -379,6 +385,10 @@ func cmdRun(args []string) int {
 		}
 	}
 	missing = dedupStrings(missing)
+	if agg.AbortedJobs > 0 {
+		// exploration was cut short after a violation had been found
+		missing = nil
+	}
 
 	// native: per-path translation validation + replay of violations
 	var sigs []string
@@ -478,7 +488,7 @@ func cmdRun(args []string) int {
 		exit = 1
 	}
 
-	inconclusive := len(agg.Inconc) > 0 || len(missing) > 0 || mismatches > 0 || nUnconfirmed > 0
+	inconclusive := len(agg.Inconc) > 0 || len(missing) > 0 || mismatches > 0 || nUnconfirmed > 0 || agg.AbortedJobs > 0
 	for _, m := range agg.Inconc {
 		fmt.Println("INCONCLUSIVE:", firstLine(m))
 	}
@@ -554,6 +564,7 @@ func cmdRun(args []string) int {
 		"known_findings_matched":        nKnown,
 		"inconclusive":                  agg.Inconc,
 		"fanout_cap_hits":               agg.St.FanoutCapHits,
+		"jobs_not_explored_after_a_violation_and_time_budget": agg.AbortedJobs,
 		"queries_answered_by_second_solver_after_timeout": agg.St.Fallbacks,
 		"time_s":                        map[string]float64{"load_and_ssa": round2(loadS), "explore": round2(exploreS), "native_build_and_run": round2(nativeS)},
 		"intrinsics":                    meta.Intrinsics,
@@ -596,28 +607,66 @@ func firstLine(s string) string {
 func round2(f float64) float64 { return float64(int(f*100+0.5)) / 100 }
 
 // confirmIndirect handles violations that cannot be reproduced by feeding
-// the model to the same harness natively.
+// the model to the same harness natively: map iteration orders (the runtime
+// picks them), other processes, and the write-set monitor.
 func confirmIndirect(nat *Native, g *ViolGroup, c *ReplayCase, entry map[string]interface{}) bool {
-	alt, ok := indirectHarness[c.Fn]
+	ind, ok := indirectHarness[c.Fn]
 	if !ok {
 		return false
 	}
 	cc := *c
-	cc.Fn = alt
+	cc.Fn = ind.Alt
 	cc.ID = 0
-	cc.Outcome = "assert:" + g.Label
-	res, err := nat.Run([]ReplayCase{cc})
-	if err != nil {
-		entry["native_note"] = err.Error()
-		return false
-	}
-	r := res[0]
-	entry["native_outcome"] = r.Outcome
-	entry["native_demonstration"] = alt
-	if strings.HasPrefix(r.Outcome, "assert:") {
-		*c = cc
-		c.Outcome = r.Outcome
-		return true
+	entry["native_demonstration"] = ind.Alt + " (" + ind.Kind + ")"
+	switch ind.Kind {
+	case "assert":
+		// a native harness that provokes the nondeterminism by repetition
+		cc.Outcome = "assert:" + g.Label
+		res, err := nat.Run([]ReplayCase{cc})
+		if err != nil {
+			entry["native_note"] = err.Error()
+			return false
+		}
+		r := res[0]
+		entry["native_outcome"] = r.Outcome
+		if strings.HasPrefix(r.Outcome, "assert:") {
+			*c = cc
+			c.Outcome = r.Outcome
+			return true
+		}
+	case "race":
+		// the operations run from 8 goroutines under the race detector
+		found, report, err := nat.RunRace(cc)
+		if err != nil {
+			entry["native_note"] = err.Error()
+			return false
+		}
+		entry["native_outcome"] = report
+		if found {
+			*c = cc
+			c.Outcome = "race"
+			c.Detail = report
+			return true
+		}
+	case "multiproc":
+		// the same case in several processes: the observations must differ
+		seen := map[string]int{}
+		for i := 0; i < 24; i++ {
+			cc.Outcome = "ok"
+			res, err := nat.runBatch([]ReplayCase{cc}, time.Minute)
+			if err != nil {
+				entry["native_note"] = err.Error()
+				return false
+			}
+			seen[strings.Join(res[0].Emits, "|")]++
+			if len(seen) > 1 {
+				entry["native_outcome"] = fmt.Sprintf("%d different encodings in %d processes", len(seen), i+1)
+				*c = cc
+				c.Outcome = "differs-between-processes"
+				return true
+			}
+		}
+		entry["native_outcome"] = "24 processes produced the same encoding"
 	}
 	return false
 }
@@ -647,6 +696,32 @@ func cmdReplay(args []string) int {
 	}
 	defer nat.Close()
 	rep.Case.ID = 0
+	switch rep.Case.Outcome {
+	case "race":
+		found, report, err := nat.RunRace(rep.Case)
+		if err != nil {
+			fmt.Fprintln(os.Stderr, err)
+			return 2
+		}
+		fmt.Printf("property %s\nsignature %s\nharness %s%v (race detector)\n%s\n", rep.Property, rep.Signature, rep.Case.Fn, rep.Case.Args, report)
+		if found {
+			fmt.Println("REPRODUCED")
+			return 1
+		}
+		fmt.Println("not reproduced on this tree")
+		return 0
+	case "differs-between-processes":
+		g := &ViolGroup{Label: ""}
+		entry := map[string]interface{}{}
+		c := rep.Case
+		indirectHarness[c.Fn] = Indirect{Alt: c.Fn, Kind: "multiproc"}
+		if confirmIndirect(nat, g, &c, entry) {
+			fmt.Printf("property %s\nsignature %s\n%v\nREPRODUCED\n", rep.Property, rep.Signature, entry["native_outcome"])
+			return 1
+		}
+		fmt.Printf("%v\nnot reproduced on this tree\n", entry["native_outcome"])
+		return 0
+	}
 	res, err := nat.Run([]ReplayCase{rep.Case})
 	if err != nil {
 		fmt.Fprintln(os.Stderr, err)
